@@ -4,6 +4,8 @@ package c16
 
 import (
 	"math/big"
+	"sync"
+	"sync/atomic"
 	"testing"
 
 	"github.com/cloudflare/circl/internal/zzverif/lib"
@@ -175,6 +177,83 @@ func TestVerifOPRFCopyBlinds(t *testing.T) {
 						lib.D("suite", su.Identifier(), "input", in, "client", outs[j], "server", want))
 				}
 			}
+		}
+	}
+}
+
+// TestVerifOPRFSharedServer: one server value per mode (and copies of it: the
+// servers are value types) is used by 16 goroutines at once for FullEvaluate
+// and VerifyFinalize on long inputs; every result must equal the one the same
+// call gives when made alone.
+func TestVerifOPRFSharedServer(t *testing.T) {
+	const mon = "TestVerifOPRFSharedServer"
+	lib.Mandatory("oprf:shared-server-calls")
+	for _, si := range suites {
+		su := si.s
+		r := lib.NewRng("c16/shared-server/"+su.Identifier(), 0)
+		key, err := oprf.DeriveKey(su, oprf.BaseMode, r.Bytes(32), []byte("shared"))
+		if err != nil {
+			t.Fatalf("harness: %v", err)
+		}
+		info := r.Bytes(9)
+		type fe func(in []byte) ([]byte, error)
+		type vf func(in, out []byte) bool
+		base := oprf.NewServer(su, key)
+		ver := oprf.NewVerifiableServer(su, key)
+		par := oprf.NewPartialObliviousServer(su, key)
+		modes := []struct {
+			name  string
+			full  fe
+			full2 fe // through a copy of the server value
+			chk   vf
+		}{
+			{"base", base.FullEvaluate, func(in []byte) ([]byte, error) { c := base; return c.FullEvaluate(in) }, base.VerifyFinalize},
+			{"verifiable", ver.FullEvaluate, func(in []byte) ([]byte, error) { c := ver; return c.FullEvaluate(in) }, ver.VerifyFinalize},
+			{"partial", func(in []byte) ([]byte, error) { return par.FullEvaluate(in, info) }, func(in []byte) ([]byte, error) { c := par; return c.FullEvaluate(in, info) },
+				func(in, out []byte) bool { return par.VerifyFinalize(in, info, out) }},
+		}
+		const workers = 16
+		inputs := make([][]byte, workers)
+		for i := range inputs {
+			inputs[i] = r.Bytes(20000 + 1000*i)
+		}
+		for _, md := range modes {
+			want := make([][]byte, workers)
+			for i := range inputs {
+				want[i], err = md.full(inputs[i])
+				if err != nil {
+					t.Fatalf("harness: sequential FullEvaluate: %v", err)
+				}
+			}
+			var wg sync.WaitGroup
+			var reported int32
+			for round := 0; round < lib.Scale(3, 30); round++ {
+				for w := 0; w < workers; w++ {
+					w := w
+					wg.Add(1)
+					go func() {
+						defer wg.Done()
+						var got []byte
+						var e error
+						okV := true
+						pn := lib.Try("oprf.FullEvaluate:concurrent", inputs[w][:16], func() {
+							if w%2 == 0 {
+								got, e = md.full(inputs[w])
+							} else {
+								got, e = md.full2(inputs[w])
+							}
+							okV = md.chk(inputs[w], want[w])
+						})
+						lib.Count("oprf:shared-server-calls")
+						if (pn != nil || e != nil || !lib.Eq(got, want[w]) || !okV) && atomic.CompareAndSwapInt32(&reported, 0, 1) {
+							lib.Violation("C16:output-mismatch:oprf."+md.name+":shared-server-used-by-several-goroutines", mon,
+								lib.D("suite", su.Identifier(), "goroutines", workers, "panic", pn != nil, "err", e, "same_as_alone", lib.Eq(got, want[w]), "verify_finalize", okV))
+						}
+					}()
+				}
+				wg.Wait()
+			}
+			lib.CaseS("shared-server", su.Identifier(), md.name)
 		}
 	}
 }
